@@ -25,5 +25,5 @@ def main(tier):
 
 
 def annotate(rep):
-    rep.gaps.append('clause (d) of the property -- sites displaced inside the cell without changing connectivity -- is not covered')
+    rep.gaps.append('clause (d) of the property -- sites displaced inside the cell without changing connectivity -- is covered for displacements along the symmetry-invariant vector fields of the mobile sublattice only (both calculators; known finding for the vacancy-mediated one on crystals with origin states)')
     rep.gaps.append('level S (symbolic, all prefactors / energies / shifts / factors) covers the interstitial calculator per enumerated network; the vacancy-mediated calculator (Green function, eigen-decompositions) is level B only; the planned degree-typing proof (E2) is not built')
